@@ -3,6 +3,23 @@ package main
 func allProps() []PropSpec {
 	return []PropSpec{
 		{
+			ID: "C01",
+			Harnesses: []HarnessSpec{
+				{Func: "ZZ_C01_H1", Pkg: "pkg/protocol/http1/req", Quick: map[string]int{"FULLNORM": 0}, Thorough: map[string]int{"FULLNORM": 1}, Covers: []string{"reached-assert", "recognised-content-length", "recognised-transfer-encoding"}},
+				{Func: "ZZ_C01_H2", Pkg: "pkg/protocol/http1", Quick: map[string]int{"D": 2, "V": 3, "FRAG": 1}, Thorough: map[string]int{"D": 3, "V": 4, "FRAG": 2}, Covers: []string{"valid-reached", "invalid-reached"}},
+				{Func: "ZZ_C01_H3", Pkg: "pkg/protocol/http1", Quick: map[string]int{"C": 2, "S": 2, "SL": 2, "FRAG": 1}, Thorough: map[string]int{"C": 3, "S": 3, "SL": 2, "FRAG": 2}, Covers: []string{"reached-assert", "two-chunks"}},
+				{Func: "ZZ_C01_H4", Pkg: "pkg/protocol/http1", Quick: map[string]int{"K": 2, "FRAG": 3}, Thorough: map[string]int{"K": 3, "FRAG": 4}, Covers: []string{"reached-assert", "two-requests"}},
+			},
+			Assumptions: []string{"transport: the real standard.Conn over a harness net.Conn; netpoll is outside", "bodies are a few bytes; buffer-boundary sizes (4 KiB/8 KiB) are C13/C14's subject", "Content-Length spellings valid only with HTAB as OWS are in neither obligation (refusing them is safe)", "multipart pre-parsing disabled"},
+		},
+		{
+			ID: "C02",
+			Harnesses: []HarnessSpec{
+				{Func: "ZZ_C02_H1", Pkg: "pkg/protocol/http1", Quick: map[string]int{"SPLITS": 1}, Thorough: map[string]int{"SPLITS": 2}, Covers: []string{"reached-assert", "two-requests-served"}},
+			},
+			Assumptions: []string{"server direction only in this revision (client response reading is covered by C11 harnesses when present)", "streams are the four templates in harness/pkg/protocol/http1/c02.go, one with two symbolic structural bytes; quick = every single split point, thorough = every pair of split points"},
+		},
+		{
 			ID: "C07",
 			Harnesses: []HarnessSpec{
 				{Func: "ZZ_C07_H1", Pkg: "pkg/protocol", Quick: map[string]int{"N": 6}, Thorough: map[string]int{"N": 9}, Covers: []string{"reached-assert", "decoded-escape"}},
